@@ -6,17 +6,16 @@ import FeatherModel.Model.RemapTree
 Nothing in this file looks at `RemapTree.remap*`.
 
 * `Ref` — one reference position; `refsClass` — the *independent traversal*: all reference positions of a class in
-  document order, including the ones `remap.rs` does not touch (enum constants in annotations) and the ones it drops
-  (record components).
+  document order (declarations, code, annotations, inner-class / enclosing-method / nest / permitted-subclass entries,
+  module services and main class, record components with their annotations).
 * `applyRef r owner` — what the remapper answers for a reference (`owner` = the class declaring a member).
-* `codeApply r owner` — what `remap.rs` does at a position of that kind: differs from `applyRef` exactly on
-  the constant of `enumConst` (copied).
 * `eraseClass` — the shape: the same tree with every reference position blanked. Signatures, annotation element names,
-  `InnerClass.inner_name`, local variable names and the names of `invokedynamic` / dynamic constants are *not*
-  reference positions of this traversal (no remapper primitive answers for them); they are part of the shape, and listed as
-  exceptions of `Thm.C07.field_coverage_partial`.
-* `strip` — the class without what `remap.rs` drops (module data, record components, unknown attributes);
-  `Kept c` — nothing to drop.
+  local variable names and the names of `invokedynamic` / dynamic constants are *not* reference positions of this
+  traversal (no remapper primitive answers for them); they are part of the shape, and listed as
+  exceptions of `Thm.C07.field_coverage_partial`. Module names, package names and unknown attributes are not class,
+  field or method references: shape.
+* `expectedInnerName` — `InnerClass.inner_name` is not answered by the remapper either, but follows from the answer for
+  the class name: the simple name that name spells out. It is blanked in the shape and specified on its own.
 -/
 
 namespace RemapTree
@@ -38,16 +37,26 @@ inductive Ref where
   | methodRef (m : MemberRef)
   /-- an enum constant in an annotation: descriptor of the enum type and name of the constant (a field of that class) -/
   | enumConst (type const : JStr)
+  /-- a component of the record being remapped: the field of that class with this name and descriptor -/
+  | recordDecl (name desc : JStr)
   deriving DecidableEq, Repr
 
 def L_ : Nat := 76
 def SEMI : Nat := 59
 
-/-- the class named by a descriptor `L<name>;` -/
+/-- the class named by the descriptor of a class type (JVMS 4.3.2, `L ClassName ;`): the text between the leading `L`
+and the trailing `;`, when that is a class name in internal form (`Descriptor.validObj`, the documented predicate of
+`ObjClassName`: not an array, every `/`-separated part non-empty and free of `.` `;` `[` `/`).
+`classOfDesc_iff` (Lemmas/RemapDesc.lean): exactly the JVMS grammar `L ClassName ;`; `classOfDesc_eq`: this is what
+duke's descriptor parser answers (`objectClassOf`). -/
 def classOfDesc (t : JStr) : Option JStr :=
   match t with
-  | c :: rest => if c == L_ && rest.getLast? == some SEMI then some rest.dropLast else none
+  | c :: rest =>
+    if c == L_ && rest.getLast? == some SEMI && Descriptor.validObj rest.dropLast then some rest.dropLast else none
   | [] => none
+
+/-- a string that can be the name of a field (JVMS 4.2.2 unqualified name: non-empty, no `.` `;` `[` `/`) -/
+def fieldNameOk (n : JStr) : Bool := Descriptor.validUnqualified n
 
 /-- what the remapper answers for a reference -/
 def applyRef (r : Remapper) (owner : JStr) : Ref → Option Ref
@@ -65,12 +74,13 @@ def applyRef (r : Remapper) (owner : JStr) : Ref → Option Ref
     | some t' =>
       match classOfDesc t with
       | none => some (.enumConst t' c)
-      | some k => (r.mapField k c t).map fun p => .enumConst t' p.1
-
-/-- what `remap.rs` does at a position of this kind -/
-def codeApply (r : Remapper) (owner : JStr) : Ref → Option Ref
-  | .enumConst t c => (r.mapDesc t).map fun t' => .enumConst t' c
-  | x => applyRef r owner x
+      | some k =>
+        -- the field `k.c` declared with type `t`; a string that cannot name a field names nothing to rename
+        if fieldNameOk c then (r.mapField k c t).map fun p => .enumConst t' p.1 else some (.enumConst t' c)
+  | .recordDecl n d =>
+    -- the field `owner.n : d`; a string that cannot name a field names nothing to rename, the descriptor remains
+    if fieldNameOk n then (r.mapField owner n d).map fun p => .recordDecl p.1 p.2
+    else (r.mapDesc d).map fun d' => .recordDecl n d'
 
 /-! ## The independent traversal -/
 
@@ -161,8 +171,15 @@ def refsEnclosing (e : Enclosing) : List Ref :=
   | some (n, d) => [.methodRef ⟨e.cls, n, d⟩]
   | none => [.clsAny e.cls]
 
-/-- a record component names the field of the record class with the same name and descriptor -/
-def refsRecordComponent (c : RecordComponent) : List Ref := [.fieldDecl c.name c.desc]
+/-- a record component names the field of the record class with the same name and descriptor, and is annotated like it -/
+def refsRecordComponent (c : RecordComponent) : List Ref :=
+  .recordDecl c.name c.desc :: (c.rva.flatMap refsAnnotation ++ c.ria.flatMap refsAnnotation ++
+  c.rvta.flatMap refsTypeAnnotation ++ c.rita.flatMap refsTypeAnnotation)
+
+def refsModuleProvides (p : ModuleProvides) : List Ref := .clsAny p.name :: p.providesWith.map .clsAny
+
+/-- the classes a module descriptor names: the services it uses, the services it provides and their implementations -/
+def refsModule (m : Module) : List Ref := m.uses.map .clsAny ++ m.provides.flatMap refsModuleProvides
 
 def refsClass (c : ClassFile) : List Ref :=
   .cls c.name :: (refsOpt (fun n => [.cls n]) c.superClass ++ c.interfaces.map .cls ++
@@ -170,6 +187,7 @@ def refsClass (c : ClassFile) : List Ref :=
   refsOpt (·.flatMap refsInnerClass) c.innerClasses ++ refsOpt refsEnclosing c.enclosingMethod ++
   c.rva.flatMap refsAnnotation ++ c.ria.flatMap refsAnnotation ++
   c.rvta.flatMap refsTypeAnnotation ++ c.rita.flatMap refsTypeAnnotation ++
+  refsOpt refsModule c.module ++ refsOpt (fun n => [.clsAny n]) c.moduleMainClass ++
   refsOpt (fun n => [.clsAny n]) c.nestHost ++ refsOpt (·.map .clsAny) c.nestMembers ++
   refsOpt (·.map .clsAny) c.permittedSubclasses ++ c.recordComponents.flatMap refsRecordComponent)
 
@@ -256,11 +274,37 @@ def eraseMethod (m : Method) : Method :=
            rvta := m.rvta.map eraseTypeAnnotation, rita := m.rita.map eraseTypeAnnotation,
            annotationDefault := m.annotationDefault.map eraseElementValue }
 
-def eraseInnerClass (i : InnerClass) : InnerClass := { i with inner := [], outer := i.outer.map fun _ => [] }
+def eraseInnerClass (i : InnerClass) : InnerClass :=
+  { i with inner := [], outer := i.outer.map fun _ => [], innerName := i.innerName.map fun _ => [] }
+
+/-! ## Inner names -/
+
+/-- the text after the last occurrence of `c`, if there is one -/
+def lastPiece (c : Nat) (s : JStr) : Option JStr :=
+  if c ∈ s then some (s.reverse.takeWhile (· ≠ c)).reverse else none
+
+/-- the simple name a binary class name spells out (JLS 13.1): in its last `/`-separated part, what follows the last
+`$`, minus the digits in front of the name of a local class; `none` when that part has no `$` -/
+def spelledSimpleName (n : JStr) : Option JStr :=
+  let part := (lastPiece 47 n).getD n
+  (lastPiece 36 part).map fun s => s.dropWhile fun c => decide (48 ≤ c ∧ c ≤ 57)
+
+/-- what a consistent renaming makes of `inner_name` when the class `old` is renamed to `new`: an inner name that was
+the simple name spelled out by `old` becomes the one spelled out by `new` (kept when `new` spells none); an inner name
+that was something else has no relation to the class name and is kept -/
+def expectedInnerName (old new : JStr) (innerName : Option JStr) : Option JStr :=
+  innerName.map fun s => if spelledSimpleName old = some s then (spelledSimpleName new).getD s else s
 
 def eraseEnclosing (e : Enclosing) : Enclosing := ⟨[], e.method.map fun _ => ([], [])⟩
 
-def eraseRecordComponent (c : RecordComponent) : RecordComponent := { c with name := [], desc := [] }
+def eraseRecordComponent (c : RecordComponent) : RecordComponent :=
+  { c with name := [], desc := [], rva := c.rva.map eraseAnnotation, ria := c.ria.map eraseAnnotation,
+           rvta := c.rvta.map eraseTypeAnnotation, rita := c.rita.map eraseTypeAnnotation }
+
+def eraseModuleProvides (p : ModuleProvides) : ModuleProvides := ⟨[], p.providesWith.map fun _ => []⟩
+
+def eraseModule (m : Module) : Module :=
+  { m with uses := m.uses.map fun _ => [], provides := m.provides.map eraseModuleProvides }
 
 def eraseClass (c : ClassFile) : ClassFile :=
   { c with name := [], superClass := c.superClass.map fun _ => [], interfaces := c.interfaces.map fun _ => [],
@@ -269,34 +313,10 @@ def eraseClass (c : ClassFile) : ClassFile :=
            enclosingMethod := c.enclosingMethod.map eraseEnclosing,
            rva := c.rva.map eraseAnnotation, ria := c.ria.map eraseAnnotation,
            rvta := c.rvta.map eraseTypeAnnotation, rita := c.rita.map eraseTypeAnnotation,
+           module := c.module.map eraseModule, moduleMainClass := c.moduleMainClass.map fun _ => [],
            nestHost := c.nestHost.map fun _ => [], nestMembers := c.nestMembers.map (·.map fun _ => []),
            permittedSubclasses := c.permittedSubclasses.map (·.map fun _ => []),
            recordComponents := c.recordComponents.map eraseRecordComponent }
-
-/-! ## What `remap.rs` drops -/
-
-def stripCode (c : Code) : Code := { c with attributes := [] }
-def stripField (f : Field) : Field := { f with attributes := [] }
-def stripMethod (m : Method) : Method := { m with code := m.code.map stripCode, attributes := [] }
-
-/-- the class without module data, record components and unknown attributes -/
-def strip (c : ClassFile) : ClassFile :=
-  { c with fields := c.fields.map stripField, methods := c.methods.map stripMethod, module := none,
-           modulePackages := none, moduleMainClass := none, recordComponents := [], attributes := [] }
-
-def keptCode (c : Code) : Bool := c.attributes.isEmpty
-def keptField (f : Field) : Bool := f.attributes.isEmpty
-def keptMethod (m : Method) : Bool :=
-  m.attributes.isEmpty && (match m.code with | none => true | some c => keptCode c)
-
-/-- the class has nothing that `remap.rs` drops -/
-def Kept (c : ClassFile) : Bool :=
-  c.fields.all keptField && c.methods.all keptMethod && c.module.isNone && c.modulePackages.isNone &&
-  c.moduleMainClass.isNone && c.recordComponents.isEmpty && c.attributes.isEmpty
-
-/-- at every reference position of `c` the code does what the remapper answers -/
-def Agree (r : Remapper) (c : ClassFile) : Bool :=
-  (refsClass c).all fun x => codeApply r c.name x == applyRef r c.name x
 
 /-! ## Jar level -/
 
